@@ -42,6 +42,33 @@ def hook_lookup(U):
         U.ensures("every other index still returns its raw string", b.ok and b.value == ("raw", j))
 
 
+@unit("C17", name="hook_overwrite", covers=[(DEX, "ClassManager.get_string"), (DEX, "ClassManager.set_hook_string")], samples=60)
+def hook_overwrite(U):
+    """any prior hook state, any new value (including the item's original raw string): the last set value wins"""
+    m = U.mod(DEX)
+    cm = object.__new__(m.ClassManager)
+    cm.hook_strings = {}
+    cm.get_raw_string = lambda idx: ("raw", idx)
+    i = U.choice("i", [0, 1, 5, 70000])
+    j = U.choice("j", [0, 1, 2, 5, 6, 69999, 70000, 70001])
+    prior = U.choice("prior", ["none", "OLD", "rawj"])
+    if prior == "OLD":
+        cm.set_hook_string(i, "OLD")
+    elif prior == "rawj" and j != i:
+        cm.set_hook_string(j, "OLDJ")
+    v = U.choice("v", ["NEW", "raw", "OLD"])
+    val = ("raw", i) if v == "raw" else v
+    o = U.call(cm.set_hook_string, i, val)
+    U.ensures("set_hook_string does not raise", o.ok, exc=repr(o.exc))
+    a = U.call(cm.get_string, i)
+    U.ensures("the most recently set value is returned (also when it equals the original string)", a.ok and a.value == val,
+              prior=prior, v=v)
+    if j != i:
+        b = U.call(cm.get_string, j)
+        want = "OLDJ" if prior == "rawj" else ("raw", j)
+        U.ensures("every other index is unaffected", b.ok and b.value == want)
+
+
 def _conc(j):
     # representative concrete value on this path (the lookup is a dict access: any j != i behaves alike)
     return j if isinstance(j, int) else j.concretize(limit=1 << 20)
@@ -110,6 +137,8 @@ def rename_sequences(U):
         if r < 0.75:
             k, it = rng.choice(items)
             new = ("Lren/C%d;" % step) if k == "class" else "ren%d" % step
+            if id(it) in renamed_ids and rng.random() < 0.35:
+                new = orig[id(it)]                      # rename back to the original name
             o = U.call(it.set_name, new)
             U.ensures("set_name does not raise", o.ok, exc=repr(o.exc), item=k)
             if not o.ok:
